@@ -377,7 +377,11 @@ func execE2E(in val.V) val.V {
 			m.ID = sse.ID(id)
 		}
 		published = append(published, e2ePub{id: id, typ: typ, data: data})
-		_ = joe.Publish(m, []string{sse.DefaultTopic})
+		if len(published)%2 == 0 {
+			_ = srv.Publish(m) // no topic given: the default topic
+		} else {
+			_ = joe.Publish(m, []string{sse.DefaultTopic})
+		}
 	}
 	waitRecv := func(target int, d time.Duration) bool {
 		deadline := time.Now().Add(d)
@@ -517,7 +521,7 @@ func execE2E(in val.V) val.V {
 	case <-time.After(5 * time.Second):
 	}
 	sctx, scancel := context.WithTimeout(context.Background(), 5*time.Second)
-	shutErr := joe.Shutdown(sctx)
+	shutErr := srv.Shutdown(sctx)
 	scancel()
 	hs.Close()
 	run.lis.Close()
